@@ -41,7 +41,10 @@ Record guards := {
   g_ek_default : bool;       (* fix10 rfc7516/json.py: encrypted_key absent = b"" *)
   g_rec_header : bool;       (* fix11 util.py:json_b64decode  except RecursionError *)
   g_rec_claims : bool;       (* fix11 jwt.py:decode  except RecursionError *)
-  g_use_str : bool           (* fix12 rfc7517/models.py:validate_dict_key_use_operations  isinstance(use, str) *)
+  g_use_str : bool;          (* fix12 rfc7517/models.py:validate_dict_key_use_operations  isinstance(use, str) *)
+  g_1pu_sender : bool;       (* fix13 drafts/jwe_ecdh_1pu.py: sender_key is None -> InvalidExchangeKeyError *)
+  g_exchange_type : bool;    (* fix14 rfc7518/ec_key.py:exchange_derive_key  isinstance(key, ECKey) *)
+  g_1pu_keytype : bool       (* fix15 drafts/jwe_ecdh_1pu.py: self.check_key_type(recipient_key) *)
 }.
 
 Definition all_guards : guards :=
@@ -49,23 +52,25 @@ Definition all_guards : guards :=
      g_dict_7797_json := true; g_dict_jwe_json := true; g_crit := true; g_enc_present := true;
      g_algstr_jwe := true; g_algstr_jws := true; g_crv_ec := true; g_crv_okp := true;
      g_p2c := true; g_zlib := true; g_eddsa := true; g_kt7797 := true; g_ek_default := true;
-     g_rec_header := true; g_rec_claims := true; g_use_str := true |}.
+     g_rec_header := true; g_rec_claims := true; g_use_str := true;
+     g_1pu_sender := true; g_exchange_type := true; g_1pu_keytype := true |}.
 
 Definition guards_list (g : guards) : list bool :=
   [g_dict_jws_compact g; g_dict_jwe_compact g; g_dict_jws_json g; g_dict_7797_json g;
    g_dict_jwe_json g; g_crit g; g_enc_present g; g_algstr_jwe g; g_algstr_jws g; g_crv_ec g;
    g_crv_okp g; g_p2c g; g_zlib g; g_eddsa g; g_kt7797 g; g_ek_default g; g_rec_header g;
-   g_rec_claims g; g_use_str g].
+   g_rec_claims g; g_use_str g; g_1pu_sender g; g_exchange_type g; g_1pu_keytype g].
 
 
-(* guards from a list of 19 booleans in the order of [guards_list] (missing = true) *)
+(* guards from a list of 22 booleans in the order of [guards_list] (missing = true) *)
 Definition guards_of (l : list bool) : guards :=
   let n i := nth i l true in
   {| g_dict_jws_compact := n 0%nat; g_dict_jwe_compact := n 1%nat; g_dict_jws_json := n 2%nat;
      g_dict_7797_json := n 3%nat; g_dict_jwe_json := n 4%nat; g_crit := n 5%nat; g_enc_present := n 6%nat;
      g_algstr_jwe := n 7%nat; g_algstr_jws := n 8%nat; g_crv_ec := n 9%nat; g_crv_okp := n 10%nat;
      g_p2c := n 11%nat; g_zlib := n 12%nat; g_eddsa := n 13%nat; g_kt7797 := n 14%nat;
-     g_ek_default := n 15%nat; g_rec_header := n 16%nat; g_rec_claims := n 17%nat; g_use_str := n 18%nat |}.
+     g_ek_default := n 15%nat; g_rec_header := n 16%nat; g_rec_claims := n 17%nat; g_use_str := n 18%nat;
+     g_1pu_sender := n 19%nat; g_exchange_type := n 20%nat; g_1pu_keytype := n 21%nat |}.
 Lemma guards_of_list g : guards_of (guards_list g) = g.
 Proof. destruct g; reflexivity. Qed.
 
@@ -77,9 +82,16 @@ Record key := {
   k_kty : string;      (* "oct" "RSA" "EC" "OKP" *)
   k_crv : string;      (* curve name for EC / OKP, "" otherwise *)
   k_kid : pv;          (* key.kid : PNone or PStr *)
-  k_use : pv           (* key.get("use") : PNone or PStr *)
+  k_use : pv;          (* key.get("use") : PNone or PStr *)
+  k_raw : bytes;       (* raw octets of an oct key ([] otherwise) *)
+  k_private : bool;    (* key.is_private *)
+  k_opfail : list string   (* operations for which key.get_op_key raises UnsupportedKeyOperationError (key_ops, public key) *)
 }.
-Inductive keyarg := AKey (k : key) | AKeySet (ks : list key).
+(* the `key` argument of the entry points: a Key, a KeySet, a str / bytes (deprecated: becomes an OctKey),
+   any other object, or a callable returning one of these *)
+Inductive keyarg := AKey (k : key) | AKeySet (ks : list key) | AText (k : key) | AOther | ACall (r : keyarg).
+(* the `sender_key` argument of the JWE entry points *)
+Inductive senderarg := SNone | SKey (k : key) | SSet (ks : list key).
 
 Record jws_reg := {
   jr_hreg : list hparam;       (* registry.header_registry *)
@@ -91,8 +103,13 @@ Record jwe_reg := {
   er_hreg : list hparam;
   er_strict : bool;
   er_allowed : list string;
-  er_verify_all : bool
+  er_verify_all : bool;
+  er_drafts : bool             (* the application registered ECDH-1PU and C20P / XC20P *)
 }.
+Definition alg_tbl (r : jwe_reg) := if er_drafts r then jwe_alg_table_drafts else jwe_alg_table.
+Definition enc_tbl (r : jwe_reg) := if er_drafts r then jwe_enc_table_drafts else jwe_enc_table.
+Definition zip_tbl (r : jwe_reg) := if er_drafts r then jwe_zip_table_drafts else jwe_zip_table.
+Definition rec_tbl (r : jwe_reg) := if er_drafts r then jwe_recommended_drafts else jwe_recommended.
 
 (* ------------------------------------------------------------------ *)
 (* primitives                                                          *)
@@ -100,15 +117,14 @@ Record jwe_reg := {
 Record prims := {
   p_json_loads : bytes -> res pv;                       (* json.loads(bytes) *)
   p_jws_verify : string -> key -> bytes -> bytes -> res bool;      (* alg.verify after the key checks *)
-  p_enc_decrypt : string -> bytes -> bytes -> bytes -> bytes -> bytes -> res bytes; (* enc ct tag cek iv aad *)
+  p_enc_decrypt : string -> bytes -> bytes -> bytes -> bytes -> bytes -> res bytes; (* enc.decrypt: enc ct tag cek iv aad *)
   p_inflate : bytes -> res bytes;                       (* zlib decompressobj().decompress + size check *)
-  p_dir_cek : string -> key -> res bytes;               (* DirectAlgModel.compute_cek (enc name, key) *)
-  p_decrypt_cek : string -> key -> bytes -> res bytes;  (* RSA / AESKW decrypt_cek after header reads (alg, key, ek) *)
-  p_gcmkw : string -> key -> bytes -> bytes -> bytes -> res bytes;  (* alg key iv tag ek *)
+  p_rsa_decrypt : string -> key -> bytes -> res bytes;  (* op_key.decrypt(ek, padding), ValueError -> DecodeError *)
+  p_aes_unwrap : bytes -> bytes -> res bytes;           (* aes_key_unwrap(kek, ek), InvalidUnwrap -> DecodeError *)
+  p_gcm_unwrap : key -> bytes -> bytes -> bytes -> res bytes;  (* Cipher(AES(key), GCM(iv, tag)) ... : key iv tag ek *)
   p_pbkdf2 : string -> key -> bytes -> Z -> res bytes;  (* PBKDF2HMAC(...iterations=p2c).derive : alg key salt count *)
-  p_unwrap : string -> bytes -> bytes -> res bytes;     (* key_wrapping.unwrap_cek : alg ek kek *)
-  p_import_epk : string -> list (str * pv) -> bool -> res key; (* binding.import_{private,public}_key of a validated epk whose crv is registered *)
-  p_exchange : key -> key -> res bytes;                 (* recipient_key.exchange_derive_key(epk) *)
+  p_import_epk : string -> list (str * pv) -> bool -> res unit; (* binding.import_{private,public}_key of a validated epk whose crv is registered *)
+  p_ecdh : key -> key -> res bytes;                     (* private_key.exchange(...) after the type / curve checks *)
   p_concat_kdf : bytes -> bytes -> N -> res bytes       (* ConcatKDFHash(...).derive : shared, fixed_info, bits *)
 }.
 
@@ -334,11 +350,24 @@ Definition get_by_kid (ks : list key) (kid : pv) : res key :=
   end.
 
 (* [hs] is obj.headers(), evaluated only for a KeySet *)
-Definition guess_key (ka : keyarg) (hs : res pv) : res key :=
+(* `callable(key)`: _normalize_key(key(obj)); a str / bytes becomes an OctKey; what is neither a KeySet
+   nor a Key (incl. a callable returned by the callable) is ValueError("Invalid key") *)
+Definition norm_key (ka : keyarg) : keyarg :=
   match ka with
-  | AKey k => Ok k
-  | AKeySet ks => do h <- hs; do kid <- py_get_str h (SK "kid"); get_by_kid ks kid
+  | ACall (ACall _) => AOther
+  | ACall r => r
+  | x => x
   end.
+Definition guess_key (ka : keyarg) (hs : res pv) : res key :=
+  match norm_key ka with
+  | AKey k | AText k => Ok k
+  | AKeySet ks => do h <- hs; do kid <- py_get_str h (SK "kid"); get_by_kid ks kid
+  | AOther | ACall _ => Err EValue
+  end.
+
+(* key.get_op_key(operation) *)
+Definition get_op_key (k : key) (op : string) : res unit :=
+  if existsb (String.eqb op) (k_opfail k) then Err (EJose UnsupportedKeyOperationError) else Ok tt.
 
 Definition check_use (k : key) (use : string) : res unit :=
   if py_truth (k_use k) && negb (py_eq (k_use k) (PS use))
@@ -601,7 +630,7 @@ Definition jwe_check_algorithm (g : guards) (reg : jwe_reg) (names : list string
   if g_algstr_jwe g && negb (is_str name) then unsupported else       (* fix04 *)
   do b <- name_in_table names name;
   if negb b then unsupported else
-  if allowed_name (er_allowed reg) jwe_recommended name then Ok tt else unsupported.
+  if allowed_name (er_allowed reg) (rec_tbl reg) name then Ok tt else unsupported.
 
 Definition find_by_name {A} (nm : A -> string) (tbl : list A) (name : pv) : res A :=
   match name with
@@ -610,11 +639,11 @@ Definition find_by_name {A} (nm : A -> string) (tbl : list A) (name : pv) : res 
   end.
 
 Definition jwe_get_alg g reg name : res jwe_alg_row :=
-  do _ <- jwe_check_algorithm g reg (map ea_name jwe_alg_table) name; find_by_name ea_name jwe_alg_table name.
+  do _ <- jwe_check_algorithm g reg (map ea_name (alg_tbl reg)) name; find_by_name ea_name (alg_tbl reg) name.
 Definition jwe_get_enc g reg name : res jwe_enc_row :=
-  do _ <- jwe_check_algorithm g reg (map ee_name jwe_enc_table) name; find_by_name ee_name jwe_enc_table name.
+  do _ <- jwe_check_algorithm g reg (map ee_name (enc_tbl reg)) name; find_by_name ee_name (enc_tbl reg) name.
 Definition jwe_get_zip g reg name : res jwe_zip_row :=
-  do _ <- jwe_check_algorithm g reg (map ez_name jwe_zip_table) name; find_by_name ez_name jwe_zip_table name.
+  do _ <- jwe_check_algorithm g reg (map ez_name (zip_tbl reg)) name; find_by_name ez_name (zip_tbl reg) name.
 
 Definition jwe_check_header (g : guards) (reg : jwe_reg) (h : pv) (check_more : bool) : res unit :=
   do _ <- check_crit_header g h;
@@ -631,6 +660,9 @@ Definition jwe_check_header (g : guards) (reg : jwe_reg) (h : pv) (check_more : 
 (* ------------------------------------------------------------------ *)
 (* key import of "epk" (rfc7517 import_key -> validate_dict_key -> binding) *)
 (* ------------------------------------------------------------------ *)
+Fixpoint str_to_string (s : str) : string :=
+  match s with [] => EmptyString | c :: r => String (ascii_of_N c) (str_to_string r) end.
+
 Definition kp_as_h (p : kparam) : hparam :=
   {| hp_name := kp_name p; hp_kind := kp_kind p; hp_required := kp_required p |}.
 
@@ -679,10 +711,17 @@ Definition import_epk (g : guards) (P : prims) (rk : key) (epk : pv) : res key :
       if negb known then
         (if (if is_ec then g_crv_ec g else g_crv_okp g) then Err EValue else Err EKey)     (* fix05 *)
       else
-        do k <- p_import_epk P (k_kty rk) d priv;
+        do _ <- p_import_epk P (k_kty rk) d priv;
         (* cls(raw_key, value, parameters) validates {**value, "kty": key_type} again *)
         do _ <- validate_dict_key g vreg (PDict (dset d (SK "kty") (PS (k_kty rk))));
-        Ok k
+        (* the facts of the imported key: an epk without key_ops supports deriveKey *)
+        Ok {| k_kty := k_kty rk; k_crv := match crv with PStr c => str_to_string c | _ => "" end;
+              k_kid := PNone; k_use := PNone; k_raw := []; k_private := priv;
+              k_opfail := match dget d (SK "key_ops") with
+                          | Some (PList ops) => if list_contains ops (PS "deriveKey") then [] else ["deriveKey"%string]
+                          | Some _ => ["deriveKey"%string]
+                          | None => []
+                          end |}
   | _ => Err EOracleMiss      (* unreachable: "epk" is validated as a JWK (dict) by check_header *)
   end.
 
@@ -697,7 +736,7 @@ Definition u32be_len_input (s : pv) (use_base64 : bool) : res bytes :=
   Ok (u32be (lenN sb) ++ sb).   (* inputs of 4 GiB and more (struct.error) are outside the model *)
 
 Definition derive_key_for_concat_kdf (P : prims) (shared : bytes) (h : pv) (cek_size : N) (key_size : option N)
-  : res bytes :=
+           (tag : option bytes) : res bytes :=
   do apu0 <- py_get_str h (SK "apu");
   do apu <- u32be_len_input apu0 true;
   do apv0 <- py_get_str h (SK "apv");
@@ -705,12 +744,16 @@ Definition derive_key_for_concat_kdf (P : prims) (shared : bytes) (h : pv) (cek_
   do idv <- py_getitem_str h (SK (match key_size with Some _ => "alg" | None => "enc" end));
   do alg_id <- u32be_len_input idv false;
   let bits := match key_size with Some n => n | None => cek_size end in
-  p_concat_kdf P shared (alg_id ++ apu ++ apv ++ u32be bits) bits.
+  do cctag <- (match tag with
+               | Some (x :: y) => u32be_len_input (PBytes (x :: y)) false     (* `if tag:` *)
+               | _ => Ok []
+               end);
+  p_concat_kdf P shared (alg_id ++ apu ++ apv ++ u32be bits ++ cctag) bits.
 
 (* ------------------------------------------------------------------ *)
 (* rfc7516/models.py:Recipient.headers ; message.py                     *)
 (* ------------------------------------------------------------------ *)
-Record recipient := { rc_header : pv; rc_ek : option bytes; rc_key : key }.
+Record recipient := { rc_header : pv; rc_ek : option bytes; rc_key : key; rc_sender : option key }.
 
 (* rv.update(protected); if unprotected: rv.update(unprotected); if header: rv.update(header)
    ([json] = parent is a BaseJSONEncryption) *)
@@ -728,6 +771,30 @@ Definition key_type_in (k : key) (types : list string) : res unit :=
 Definition ek_or_assert (r : recipient) : res bytes :=
   match rc_ek r with Some b => Ok b | None => Err EAssert end.
 
+(* JWEKeyWrapping.check_op_key *)
+Definition check_op_key (size : option N) (op_key : bytes) : res unit :=
+  match size with
+  | Some n => if lenN op_key * 8 =? n then Ok tt else Err (EJose InvalidKeyLengthError)
+  | None => Ok tt
+  end.
+
+(* AESAlgModel.unwrap_cek(ek, key) *)
+Definition unwrap_cek (P : prims) (size : option N) (ek kek : bytes) : res bytes :=
+  do _ <- check_op_key size kek; p_aes_unwrap P kek ek.
+
+(* ECKey / OKPKey.exchange_derive_key(self, other) *)
+Definition exchange_derive_key (g : guards) (P : prims) (self other : key) : res bytes :=
+  if String.eqb (k_kty self) "EC" then
+    (if g_exchange_type g && negb (String.eqb (k_kty other) "EC") then Err (EJose InvalidExchangeKeyError) else   (* fix14 *)
+     do _ <- get_op_key other "deriveKey";
+     if negb (k_private self) then Err (EJose InvalidExchangeKeyError) else
+     if negb (String.eqb (k_kty other) "EC") then Err EAttr else          (* key.curve_name *)
+     if String.eqb (k_crv self) (k_crv other) then p_ecdh P self other else Err (EJose InvalidExchangeKeyError))
+  else
+    do _ <- get_op_key other "deriveKey";
+    let x c := k_private self && String.eqb (k_crv self) c && String.eqb (k_kty other) "OKP" && String.eqb (k_crv other) c in
+    if x "X25519"%string || x "X448"%string then p_ecdh P self other else Err (EJose InvalidExchangeKeyError).
+
 (* ECDHESAlgModel.decrypt_agreed_upon_key *)
 Definition decrypt_agreed_upon_key (g : guards) (P : prims) (alg : jwe_alg_row) (enc : jwe_enc_row)
            (headers : pv) (r : recipient) : res bytes :=
@@ -736,8 +803,29 @@ Definition decrypt_agreed_upon_key (g : guards) (P : prims) (alg : jwe_alg_row) 
   do _ <- key_type_in (rc_key r) (ea_key_types alg);
   do epk <- py_getitem_str headers (SK "epk");
   do ek <- import_epk g P (rc_key r) epk;
-  do shared <- p_exchange P (rc_key r) ek;
-  derive_key_for_concat_kdf P shared headers (ee_cek_size enc) (ea_key_size alg).
+  do shared <- exchange_derive_key g P (rc_key r) ek;
+  derive_key_for_concat_kdf P shared headers (ee_cek_size enc) (ea_key_size alg) None.
+
+(* ECDH1PUAlgModel.__decrypt_agreed_upon_key(enc, recipient, tag) *)
+Definition decrypt_agreed_upon_key_1pu (g : guards) (P : prims) (alg : jwe_alg_row) (enc : jwe_enc_row)
+           (headers : pv) (r : recipient) (tag : option bytes) : res bytes :=
+  (* _check_enc: with key wrapping only the CBC-HS encs *)
+  if negb (ea_direct alg) && negb (String.eqb (ee_family enc) "CBCHS") then Err (EJose InvalidEncryptionAlgorithmError) else
+  do has <- py_in (PS "epk") headers;
+  do _ <- assert_ has;
+  match rc_sender r with
+  | None => if g_1pu_sender g then Err (EJose InvalidExchangeKeyError) else Err EAssert      (* fix13 *)
+  | Some sk =>
+      do _ <- (if g_1pu_keytype g then key_type_in (rc_key r) (ea_key_types alg) else Ok tt);   (* fix15 *)
+      if negb (String.eqb (k_kty (rc_key r)) "EC") && negb (String.eqb (k_kty (rc_key r)) "OKP")
+      then Err EOracleMiss      (* RSAKey / OctKey.import_key of the epk: not modelled (only reachable without fix15) *)
+      else
+      do epk <- py_getitem_str headers (SK "epk");
+      do ek <- import_epk g P (rc_key r) epk;
+      do s1 <- exchange_derive_key g P (rc_key r) sk;
+      do s2 <- exchange_derive_key g P (rc_key r) ek;
+      derive_key_for_concat_kdf P (s2 ++ s1) headers (ee_cek_size enc) (ea_key_size alg) tag
+  end.
 
 (* PBES2HSAlgModel.decrypt_cek *)
 Definition pbes2_decrypt_cek (g : guards) (P : prims) (alg : jwe_alg_row) (headers : pv) (r : recipient)
@@ -749,6 +837,7 @@ Definition pbes2_decrypt_cek (g : guards) (P : prims) (alg : jwe_alg_row) (heade
   do p2s <- b64d p2sb;
   do p2c <- py_getitem_str headers (SK "p2c");
   do _ <- key_type_in (rc_key r) (ea_key_types alg);
+  do _ <- get_op_key (rc_key r) "deriveKey";
   do kek <-
      match p2c with
      | PInt z =>
@@ -758,11 +847,13 @@ Definition pbes2_decrypt_cek (g : guards) (P : prims) (alg : jwe_alg_row) (heade
      | _ => if g_p2c g then Err EValue else Err EType
      end;
   do ek <- ek_or_assert r;
-  p_unwrap P (ea_name alg) ek kek.
+  unwrap_cek P (ea_key_size alg) ek kek.
 
 (* AESGCMAlgModel.decrypt_cek *)
 Definition gcmkw_decrypt_cek (P : prims) (alg : jwe_alg_row) (headers : pv) (r : recipient) : res bytes :=
   do _ <- key_type_in (rc_key r) (ea_key_types alg);
+  do _ <- get_op_key (rc_key r) "unwrapKey";
+  do _ <- check_op_key (ea_key_size alg) (k_raw (rc_key r));
   do h1 <- py_in (PS "iv") headers; do _ <- assert_ h1;
   do h2 <- py_in (PS "tag") headers; do _ <- assert_ h2;
   do iv0 <- py_getitem_str headers (SK "iv");
@@ -772,31 +863,46 @@ Definition gcmkw_decrypt_cek (P : prims) (alg : jwe_alg_row) (headers : pv) (r :
   do tagb <- to_bytes false tag0;
   do tag <- b64d tagb;
   do ek <- ek_or_assert r;
-  p_gcmkw P (ea_name alg) (rc_key r) iv tag ek.
+  p_gcm_unwrap P (rc_key r) iv tag ek.
 
 Definition known_family (f : string) : bool :=
-  existsb (String.eqb f) ["dir"; "ECDHES"; "RSA"; "AESKW"; "AESGCMKW"; "PBES2"]%string.
+  existsb (String.eqb f) ["dir"; "ECDHES"; "ECDH1PU"; "RSA"; "AESKW"; "AESGCMKW"; "PBES2"]%string.
 
-(* message.py:decrypt_recipient *)
+(* message.py:decrypt_recipient(alg, enc, recipient, tag) *)
 Definition decrypt_recipient (g : guards) (P : prims) (alg : jwe_alg_row) (enc : jwe_enc_row)
-           (headers : pv) (r : recipient) : res bytes :=
+           (headers : pv) (r : recipient) (tag : bytes) : res bytes :=
   let fam := ea_family alg in
   if negb (known_family fam) then Err EOracleMiss else
+  let agreement := String.eqb fam "ECDHES" || String.eqb fam "ECDH1PU" in
   if ea_direct alg then
     (if match rc_ek r with Some (_ :: _) => true | _ => false end
      then Err (EJose InvalidEncryptedKeyError) else
      if String.eqb fam "ECDHES" then decrypt_agreed_upon_key g P alg enc headers r
-     else do _ <- key_type_in (rc_key r) (ea_key_types alg); p_dir_cek P (ee_name enc) (rc_key r))
-  else if String.eqb fam "ECDHES" then
-    do auk <- decrypt_agreed_upon_key g P alg enc headers r;
+     else if String.eqb fam "ECDH1PU" then decrypt_agreed_upon_key_1pu g P alg enc headers r None
+     else
+       (* DirectAlgModel.compute_cek *)
+       do _ <- key_type_in (rc_key r) (ea_key_types alg);
+       if lenN (k_raw (rc_key r)) * 8 =? ee_cek_size enc then Ok (k_raw (rc_key r)) else Err (EJose InvalidKeyLengthError))
+  else if agreement then
+    do auk <- (if ea_tag_aware alg then
+                 (if String.eqb fam "ECDH1PU" then decrypt_agreed_upon_key_1pu g P alg enc headers r (Some tag)
+                  else Err ERuntime (* NotImplementedError *))
+               else decrypt_agreed_upon_key g P alg enc headers r);
     do ek <- ek_or_assert r;
-    p_unwrap P (ea_name alg) ek auk
+    unwrap_cek P (ea_key_size alg) ek auk
   else if String.eqb fam "PBES2" then pbes2_decrypt_cek g P alg headers r
   else if String.eqb fam "AESGCMKW" then gcmkw_decrypt_cek P alg headers r
-  else
+  else if String.eqb fam "AESKW" then
     do _ <- key_type_in (rc_key r) (ea_key_types alg);
+    do _ <- get_op_key (rc_key r) "unwrapKey";
     do ek <- ek_or_assert r;
-    p_decrypt_cek P (ea_name alg) (rc_key r) ek.
+    unwrap_cek P (ea_key_size alg) ek (k_raw (rc_key r))
+  else
+    (* RSAAlgModel.decrypt_cek *)
+    do _ <- key_type_in (rc_key r) (ea_key_types alg);
+    do _ <- get_op_key (rc_key r) "decrypt";
+    do ek <- ek_or_assert r;
+    p_rsa_decrypt P (ea_name alg) (rc_key r) ek.
 
 Record jwe_obj := {
   jo_json : bool; jo_protected : pv; jo_unprotected : pv; jo_aad : option bytes;
@@ -813,7 +919,7 @@ Fixpoint recipients_loop (g : guards) (P : prims) (reg : jwe_reg) (o : jwe_obj) 
       do _ <- jwe_check_header g reg headers true;
       do a <- py_getitem_str headers (SK "alg");
       do alg <- jwe_get_alg g reg a;
-      match decrypt_recipient g P alg enc headers r with
+      match decrypt_recipient g P alg enc headers r (jo_tag o) with
       | Ok cek => recipients_loop g P reg o enc rest (if existsb (beqb cek) ceks then ceks else cek :: ceks)
       | Err e =>
           match e with
@@ -824,6 +930,19 @@ Fixpoint recipients_loop (g : guards) (P : prims) (reg : jwe_reg) (o : jwe_obj) 
   end.
 
 Definition decode_error {A} : res A := Err (EJose DecodeError).
+
+(* jwe._guess_sender_key(recipient, sender_key) behind `if sender_key:` ; [hs] = recipient.headers() *)
+Definition guess_sender_key (sa : senderarg) (hs : res pv) : res (option key) :=
+  match sa with
+  | SNone | SSet [] => Ok None                        (* falsy: no sender key attached *)
+  | SKey k => do _ <- check_use k "enc"; Ok (Some k)
+  | SSet ks =>
+      do h <- hs;
+      do skid <- py_get_str h (SK "skid");
+      if py_truth skid then
+        do k <- get_by_kid ks skid; do _ <- check_use k "enc"; Ok (Some k)
+      else Err EValue
+  end.
 
 Definition b64e_bytes (b : bytes) : bytes := b64e b.
 
@@ -864,7 +983,7 @@ Definition perform_decrypt g P reg o : res bytes :=
 (* ------------------------------------------------------------------ *)
 (* rfc7516/compact.py + jwe.decrypt_compact                             *)
 (* ------------------------------------------------------------------ *)
-Definition jwe_decrypt_compact_b (g : guards) (P : prims) (reg : jwe_reg) (ka : keyarg) (value : bytes)
+Definition jwe_decrypt_compact_b (g : guards) (P : prims) (reg : jwe_reg) (ka : keyarg) (sa : senderarg) (value : bytes)
   : res (pv * bytes) :=
   match split_dot value with
   | [hs; eks; ivs; cts; tgs] =>
@@ -882,20 +1001,21 @@ Definition jwe_decrypt_compact_b (g : guards) (P : prims) (reg : jwe_reg) (ka : 
       do ek <- b64d eks;
       do k <- guess_key ka (recipient_headers false protected PNone PNone);
       do _ <- check_use k "enc";
+      do sk <- guess_sender_key sa (recipient_headers false protected PNone PNone);
       let o := {| jo_json := false; jo_protected := protected; jo_unprotected := PNone; jo_aad := None;
                   jo_pseg := hs; jo_iv := iv; jo_ct := ct; jo_tag := tag;
-                  jo_recipients := [{| rc_header := PNone; rc_ek := Some ek; rc_key := k |}] |} in
+                  jo_recipients := [{| rc_header := PNone; rc_ek := Some ek; rc_key := k; rc_sender := sk |}] |} in
       do pt <- perform_decrypt g P reg o;
       Ok (protected, pt)
   | _ => Err EValue
   end.
 
-Definition jwe_decrypt_compact g P reg ka (v : cinput) : res (pv * bytes) :=
-  do b <- cinput_bytes v; jwe_decrypt_compact_b g P reg ka b.
+Definition jwe_decrypt_compact g P reg ka sa (v : cinput) : res (pv * bytes) :=
+  do b <- cinput_bytes v; jwe_decrypt_compact_b g P reg ka sa b.
 
 Definition jwt_decode_jwe g P reg ka (v : cinput) : res (pv * pv) :=
   do b <- cinput_bytes v;
-  do r <- jwe_decrypt_compact_b g P reg ka b;
+  do r <- jwe_decrypt_compact_b g P reg ka SNone b;       (* jwt.decode has no sender_key *)
   do c <- decode_claims g P (snd r);
   Ok (fst r, c).
 
@@ -919,18 +1039,19 @@ Definition extract_recipient (g : guards) (item : pv) : res (pv * option bytes) 
     Ok (h, Some ek)
   else Ok (h, if g_ek_default g then Some [] else None).        (* fix10 *)
 
-Fixpoint attach_keys (json : bool) (ka : keyarg) (protected unprotected : pv) (l : list (pv * option bytes))
+Fixpoint attach_keys (json : bool) (ka : keyarg) (sa : senderarg) (protected unprotected : pv) (l : list (pv * option bytes))
   : res (list recipient) :=
   match l with
   | [] => Ok []
   | (h, ek) :: r =>
       do k <- guess_key ka (recipient_headers json protected unprotected h);
       do _ <- check_use k "enc";
-      do t <- attach_keys json ka protected unprotected r;
-      Ok ({| rc_header := h; rc_ek := ek; rc_key := k |} :: t)
+      do sk <- guess_sender_key sa (recipient_headers json protected unprotected h);
+      do t <- attach_keys json ka sa protected unprotected r;
+      Ok ({| rc_header := h; rc_ek := ek; rc_key := k; rc_sender := sk |} :: t)
   end.
 
-Definition jwe_decrypt_json (g : guards) (P : prims) (reg : jwe_reg) (ka : keyarg) (data : pv) : res bytes :=
+Definition jwe_decrypt_json (g : guards) (P : prims) (reg : jwe_reg) (ka : keyarg) (sa : senderarg) (data : pv) : res bytes :=
   do general <- py_in (PS "recipients") data;
   do pseg0 <- py_getitem_str data (SK "protected");
   do p <- json_b64decode g P pseg0;
@@ -944,7 +1065,7 @@ Definition jwe_decrypt_json (g : guards) (P : prims) (reg : jwe_reg) (ka : keyar
   do aad <- (if hasaad then do a <- seg_of data "aad"; Ok (Some (snd a)) else Ok None);
   do items <- (if general then do rs <- py_getitem_str data (SK "recipients"); py_iter rs else Ok [data]);
   do rl <- mapM (extract_recipient g) items;
-  do recs <- attach_keys true ka protected unprotected rl;
+  do recs <- attach_keys true ka sa protected unprotected rl;
   perform_decrypt g P reg
     {| jo_json := true; jo_protected := protected; jo_unprotected := unprotected; jo_aad := aad;
        jo_pseg := pseg; jo_iv := snd iv; jo_ct := snd ct; jo_tag := snd tag; jo_recipients := recs |}.
@@ -1008,9 +1129,6 @@ Definition jwe_reg_wf (r : jwe_reg) : bool :=
 Definition key_wf (k : key) : bool :=
   match k_kid k with PNone | PStr _ => true | _ => false end &&
   match k_use k with PNone | PStr _ => true | _ => false end.
-Definition keyarg_wf (ka : keyarg) : bool :=
-  match ka with AKey k => key_wf k | AKeySet ks => forallb key_wf ks end.
-
 (* registries of the library (from the generated tables) *)
 Definition default_jws_reg : jws_reg :=
   {| jr_hreg := jws_default_instance_header_registry; jr_strict := jws_default_instance_strict;
@@ -1019,4 +1137,4 @@ Definition default_7797_reg : jws_reg :=
   {| jr_hreg := jws7797_default_header_registry; jr_strict := true; jr_allowed := []; jr_7797 := true |}.
 Definition default_jwe_reg : jwe_reg :=
   {| er_hreg := jwe_default_instance_header_registry; er_strict := jwe_default_instance_strict;
-     er_allowed := []; er_verify_all := jwe_default_verify_all |}.
+     er_allowed := []; er_verify_all := jwe_default_verify_all; er_drafts := false |}.
